@@ -154,7 +154,7 @@ func randTagMap(r *rand.Rand) map[string]string {
 		var k strings.Builder
 		switch r.Intn(4) {
 		case 0:
-			k.WriteString([]string{"json", "xml", "yaml", "db", "validate", "a", "b", "ab", "a.b", "A", "_"}[r.Intn(11)])
+			k.WriteString([]string{"json", "xml", "yaml", "db", "validate", "a", "b", "ab", "a.b", "A", "_", "é", "ключ", "キー", "ｊｓｏｎ", "v٣", "naïve", "a\u0301"}[r.Intn(18)])
 		default:
 			for j, l := 0, 1+r.Intn(6); j < l; j++ {
 				k.WriteByte(tagKeyAlphabet[r.Intn(len(tagKeyAlphabet))])
@@ -274,7 +274,7 @@ func c17Batch(r *mon.Run, bi int) {
 }
 
 func runC17(r *mon.Run) {
-	r.SetRule("random maps of 0-8 keys (key alphabet: printable ASCII without space, quote, colon; some conventional names) to values drawn from the C12 string generator (quotes, backquotes, newlines, invalid UTF-8, raw bytes); nil and empty maps; maps that are empty or smaller when Tag is called and filled before (or between) renders; 1,000 fields per rendered struct, formatted and NoFormat; non-trivial = non-empty map; distinct by map content")
+	r.SetRule("random maps of 0-8 keys (key alphabet: printable ASCII without space, quote, colon; some conventional names and non-ASCII keys) to values drawn from the C12 string generator (quotes, backquotes, newlines, invalid UTF-8, raw bytes); nil and empty maps; maps that are empty or smaller when Tag is called and filled before (or between) renders; 1,000 fields per rendered struct, formatted and NoFormat; non-trivial = non-empty map; distinct by map content")
 	r.NegControl("value-altered-before-lookup", func() {
 		probs, fatal := judgeTagSource([]byte("package p\ntype T struct {\n\tF0 int `a:\"\\ufffd\"`\n}\n"), []map[string]string{{"a": "\xff"}})
 		if fatal != "" || len(probs) > 0 {
